@@ -77,3 +77,10 @@ def _v9(repo, mod):
 def _v10(repo, mod):
     fn = repo.func(RK, NDS)
     return insert_before(mod, fn.body[-1], "_unused = front_index")
+
+
+@variant("C14", "zero-front-capped-at-population-size", RK, "C14.zero-front", "the zero front stops collecting per-goal bests at the population size (seed C14-c)")
+def _vz1(repo, mod):
+    fn = repo.func(RK, "RankBasedPreferenceSorting._get_zero_front")
+    loop = find_node(fn, lambda n: isinstance(n, ast.For))
+    return insert_before(mod, loop.body[0], "if len(zero_front) >= config.configuration.search_algorithm.population:\n    break")
